@@ -38,7 +38,7 @@ theorem gen_reset (E : Nat) (s : St) (hM : P2 s.a.M) (hne : HeadNotStatic E s.a)
       have : c.size < FOOTER_SIZE := by omega
       simp [hs, this, Outcome.isBad]
     have hs' : ¬ c.size < FOOTER_SIZE := by omega
-    simp only [hs, hs', if_true, if_false, chunk_ab_set, beq_self_eq_true, Chunk.footer, chunk_prev, Arena.cur,
+    simp only [hs, hs', if_true, if_false, chunk_ab_set, beq_self_eq_true, Chunk.footer, chunk_prev, prevIn, Arena.cur,
       List.headD_cons, List.headD_nil, emptyChunk]
     right
     simp [Chunk.footer]
